@@ -591,9 +591,18 @@ impl<'a> Runner<'a> {
             }
             return;
         }
+        if rr.has_strict_grouped && rr.all_weights_sum > LIGHT_WEIGHTS_MAX {
+            // heavy coupling weights between the entries of a strict request: an extra group
+            // can pay off in the optimisation even on the idle worker, so the yardstick
+            // "smallest number of groups that could ever hold the amount" is not what the
+            // code (nor the documentation's coupling section) uses. Only feasibility and the
+            // admission/grant agreement are checked here.
+            self.count("ref_narrowed_strict_heavy_weights");
+            return;
+        }
         if granted {
             if rr.has_strict_grouped && !rr.strict_ok {
-                // is the minimum reachable according to the weights-free reference?
+                // light or no weights: a group costs more than all weights together
                 self.count("ref_disagree");
                 self.find(
                     "C16",
@@ -615,6 +624,10 @@ impl<'a> Runner<'a> {
         if !rr.strict_ok {
             self.count("ref_agree_refuse");
             self.count("probe_strict_refusal");
+            return;
+        }
+        if !rr.nonstrict_at_optimum && !rr.active_weights.is_empty() {
+            self.count("ref_narrowed_strict_coupled");
             return;
         }
         if !rr.nonstrict_at_optimum {
@@ -640,7 +653,7 @@ impl<'a> Runner<'a> {
         // coupling applies: the documentation adds "the optimal configuration wrt. coupling
         // weights has to be achieved". Decidable for integer amounts and light weights only.
         let integer = entries.iter().all(|e| e.policy == PolicySpec::All || e.amount % UNIT == 0);
-        if !integer || rr.all_weights_sum > LIGHT_WEIGHTS_MAX {
+        if !integer {
             self.count("ref_narrowed_strict_coupled");
             return;
         }
